@@ -635,7 +635,7 @@ func sameLevel(i *Iter) bool {
 //@   props C05 C19
 //@   requires 0 <= o.off && o.off <= 1<<57 && o.tape.Strings != nil
 //@   invariant 0 iterOK(&tmp) && tmp.tape.Strings != nil
-//@   invariant 0 [C12] level: tmp.addNext == stepAddNext(tmp.t, tmp.cur, tmp.off)
+//@   invariant 0 [C12,C02] level: tmp.addNext == stepAddNext(tmp.t, tmp.cur, tmp.off)
 //@   decreases 0 len(tmp.tape.Tape) - tmp.off - tmp.addNext
 //@   safe
 
@@ -650,7 +650,7 @@ func sameLevel(i *Iter) bool {
 //@   props C05 C19
 //@   requires 0 <= o.off && o.off <= 1<<57 && o.tape.Strings != nil
 //@   invariant 0 iterOK(&tmp) && tmp.tape.Strings != nil
-//@   invariant 0 [C12] level: sameLevel(&tmp)
+//@   invariant 0 [C12,C02] level: sameLevel(&tmp)
 //@   decreases 0 2*(len(tmp.tape.Tape) - tmp.off - tmp.addNext) + ite(tmp.t == TagEnd, 0, 1)
 //@   safe
 
